@@ -24,4 +24,4 @@ For each mutant k = 1..{n}:
  2. Write a small demonstration program {wt}/mutants/m<k>/demo.py (plain python, exits non-zero / assertion error WITH the change and exits 0 WITHOUT it) that shows the property failing on a concrete input. Verify both directions yourself.
  3. Run the relevant existing tests with the change applied and confirm they pass: at minimum the test files touching the changed module(s), and preferably the whole suite: `cd {wt} && OMP_NUM_THREADS=1 OPENBLAS_NUM_THREADS=1 MKL_NUM_THREADS=1 /venv/bin/python -m pytest -q -p no:cacheprovider --timeout=900 -x -q tests 2>&1 | tail -5` (about 5 minutes, 1506 tests). A mutant that fails any existing test is not acceptable: rework it.
  4. Write {wt}/mutants/m<k>/meta.json with keys: property ("{pid}"), summary (what was changed), needs (what specific input/sequence/option is needed for it to manifest), files (changed files), tests_run (the command you ran and the result line).
-Finally restore the worktree (`git -C {wt} checkout -- .`) and reply with a short list: for each mutant, one line of what was changed, what triggers it, and the test result line. Do not include anything else.""")
+IMPORTANT: never use `git stash` (the stash is shared by all worktrees of this repository and other agents are working in sibling worktrees) — to go back and forth use `git apply` / `git apply -R` on your patch file or `git checkout -- .`. Finally restore the worktree (`git -C {wt} checkout -- .`) and reply with a short list: for each mutant, one line of what was changed, what triggers it, and the test result line. Do not include anything else.""")
